@@ -83,6 +83,26 @@ theorem c07_renders_table_agrees :
   intro g z y
   exact h.2 g (mem_allGates g) z (mem_allCls z) y (mem_allCls y)
 
+/-- E2, evaluated on the real `run` under a virtual clock on every run: a cached reply is served — without consulting
+    an agent — exactly when the model's `checkCache` serves it: the entry is strictly younger than the TTL AND was
+    decided under the gate logic configured at the repeat.  Rows: gate logic at the original × gate logic assigned
+    afterwards (`loop.gate_logic = …` on the live loop) × age TTL−1 / TTL / TTL+1 µs, complete. -/
+theorem c07_cache_lookup_table_agrees :
+    (∀ r ∈ GateTable.cacheLookup,
+      (checkCache { gate := r.2.1, ttl := r.2.2.2.1 } idHashes
+          { now := r.2.2.1, cache := [⟨1, errorResult, 0, r.1⟩] } ⟨1, true⟩).2.isSome = r.2.2.2.2) ∧
+    (∀ (g1 g2 : Gate), ∀ d ∈ [(-1 : Int), 0, 1], ∃ r ∈ GateTable.cacheLookup,
+      r.1 = g1 ∧ r.2.1 = g2 ∧ (r.2.2.1 : Int) = r.2.2.2.1 + d) := by
+  have h : (∀ r ∈ GateTable.cacheLookup,
+      (checkCache { gate := r.2.1, ttl := r.2.2.2.1 } idHashes
+          { now := r.2.2.1, cache := [⟨1, errorResult, 0, r.1⟩] } ⟨1, true⟩).2.isSome = r.2.2.2.2) ∧
+      (∀ g1 ∈ allGates, ∀ g2 ∈ allGates, ∀ d ∈ [(-1 : Int), 0, 1], ∃ r ∈ GateTable.cacheLookup,
+        r.1 = g1 ∧ r.2.1 = g2 ∧ (r.2.2.1 : Int) = r.2.2.2.1 + d) := by
+    decide +kernel
+  refine ⟨h.1, ?_⟩
+  intro g1 g2
+  exact h.2 g1 (mem_allGates g1) g2 (mem_allGates g2)
+
 /-- The verdict classes partition all strings: a string is in one of the four named classes exactly when it
     is that literal, and in `other` exactly when it is none of them. -/
 theorem c07_classes_partition (s : String) :
